@@ -20,6 +20,9 @@ import (
 	"k8s.io/apimachinery/pkg/runtime"
 	"k8s.io/apimachinery/pkg/types"
 	"k8s.io/apimachinery/pkg/util/sets"
+	appsapplyv1 "k8s.io/client-go/applyconfigurations/apps/v1"
+	coreapply "k8s.io/client-go/applyconfigurations/core/v1"
+	metaapply "k8s.io/client-go/applyconfigurations/meta/v1"
 	kubefake "k8s.io/client-go/kubernetes/fake"
 	clienttesting "k8s.io/client-go/testing"
 
@@ -117,7 +120,7 @@ func init() {
 		rep.Extra["builtin_only_paths"] = unmodelled
 		rep.Extra["advanced_only_paths"] = extraInAdv
 		rep.Extra["single_field_mutations"] = len(muts)
-		rep.Rule = fmt.Sprintf("bounded-exhaustive objects from a reflective generator over k8s.io/api/apps/v1.StatefulSet (depth %d): a populated base object with every reachable path set, one at a time, to each variant (leaf: two typical values and zero; pointer: nil / pointer to zero / populated; slice: nil / empty / 1 / 3 items; map: nil / empty / one entry), all pairs of mutations among the set-level fields (metadata.*, spec.*, status.* first level; thorough: second level too), and the same on an empty base object; slot sets = all subsets of {MinInt32,-1,0,1,2,MaxInt32}; annotation maps {nil, {}, other keys, pre-existing slots/pause}. Oracles: To(From(x)) semantically equals x with the built-in-only paths (computed by reflection) zeroed, apiVersion apps/v1, no error; list conversion keeps length and order; write/read through the hijack client on a fake keeps every value the input had; Set.Get = id, Add = union, empty removes the key, other annotations untouched, same for pause; edit histories through the hijack client (create with slots S1/pause P1, read, update to S2/P2 for all S1,S2 subsets of {0,1,2}: the update result, a fresh read and the stored Advanced object all say S2/P2 and an emptied slot set leaves no annotation); List through the client over an underlying list of 0..4, 63, 64, 65, 129 and 200 items (thorough: 1000) served in a fixed non-sorted order, the items differing in which fields they carry at all (length, order, list resourceVersion/continue, item types and content), UpdateStatus (every status field, slots untouched) and Patch (result equals the stored object); D(D(o)) = D(o) and re-submitting a read-back object leaves the template unchanged. Non-trivial = the mutated object differs from the base.", depth)
+		rep.Rule = fmt.Sprintf("bounded-exhaustive objects from a reflective generator over k8s.io/api/apps/v1.StatefulSet (depth %d): a populated base object with every reachable path set, one at a time, to each variant (leaf: two typical values and zero; pointer: nil / pointer to zero / populated; slice: nil / empty / 1 / 3 items; map: nil / empty / one entry), all pairs of mutations among the set-level fields (metadata.*, spec.*, status.* first level; thorough: second level too), and the same on an empty base object; slot sets = all subsets of {MinInt32,-1,0,1,2,MaxInt32}; annotation maps {nil, {}, other keys, pre-existing slots/pause}. Oracles: To(From(x)) semantically equals x with the built-in-only paths (computed by reflection) zeroed, apiVersion apps/v1, no error; list conversion keeps length and order; write/read through the hijack client on a fake keeps every value the input had; Set.Get = id, Add = union, empty removes the key, other annotations untouched, same for pause; edit histories through the hijack client (create with slots S1/pause P1, read, update to S2/P2 for all S1,S2 subsets of {0,1,2}: the update result, a fresh read and the stored Advanced object all say S2/P2 and an emptied slot set leaves no annotation); List through the client over an underlying list of 0..4, 63, 64, 65, 129 and 200 items (thorough: 1000) served in a fixed non-sorted order, the items differing in which fields they carry at all (length, order, list resourceVersion/continue, item types and content), UpdateStatus (every status field, slots untouched) and Patch (result equals the stored object); apply configurations built from ten builder steps (alone, in every ordered pair, all together) convert to a configuration that says the same, typed for the Advanced API; D(D(o)) = D(o) and re-submitting a read-back object leaves the template unchanged. Non-trivial = the mutated object differs from the base.", depth)
 		rep.Assumptions = []string{"fields the Advanced API models = JSON paths present in both Go types (computed by reflection over struct tags)", "timestamps are generated at second granularity (the API's own)", "the hijack client is exercised on client-go's stock fake object tracker"}
 		ctx := context.TODO()
 		var n int64
@@ -558,8 +561,120 @@ func init() {
 				pc3.AppsV1().StatefulSets("default").Delete(ctx, x.Name, metav1.DeleteOptions{})
 			}
 		}
+		// apply configurations (what the hijack client's Apply/ApplyStatus convert before sending): every builder step
+		// alone, every pair, and all together; the converted configuration says the same, typed for the Advanced API
+		{
+			type step struct {
+				name string
+				f    func(*appsapplyv1.StatefulSetApplyConfiguration)
+			}
+			part := int32(2)
+			steps := []step{
+				{"labels", func(a *appsapplyv1.StatefulSetApplyConfiguration) { a.WithLabels(map[string]string{"a": "b"}) }},
+				{"annotations+slots", func(a *appsapplyv1.StatefulSetApplyConfiguration) {
+					a.WithAnnotations(map[string]string{"delete-slots": "[1,3]", "paused-reconcile": "true", "x": "y"})
+				}},
+				{"resourceVersion+uid", func(a *appsapplyv1.StatefulSetApplyConfiguration) {
+					a.WithResourceVersion("42").WithUID("uid-1").WithGeneration(7)
+				}},
+				{"finalizers+owners", func(a *appsapplyv1.StatefulSetApplyConfiguration) {
+					a.WithFinalizers("f1", "f2").WithOwnerReferences(metaapply.OwnerReference().WithAPIVersion("v1").WithKind("ConfigMap").WithName("cm").WithUID("u").WithController(true))
+				}},
+				{"spec.replicas+service", func(a *appsapplyv1.StatefulSetApplyConfiguration) {
+					a.WithSpec(specOf(a).WithReplicas(0).WithServiceName("svc").WithRevisionHistoryLimit(0))
+				}},
+				{"spec.selector", func(a *appsapplyv1.StatefulSetApplyConfiguration) {
+					a.WithSpec(specOf(a).WithSelector(metaapply.LabelSelector().WithMatchLabels(map[string]string{"app": "web"}).
+						WithMatchExpressions(metaapply.LabelSelectorRequirement().WithKey("tier").WithOperator(metav1.LabelSelectorOpNotIn).WithValues("cache"))))
+				}},
+				{"spec.template", func(a *appsapplyv1.StatefulSetApplyConfiguration) {
+					a.WithSpec(specOf(a).WithTemplate(coreapply.PodTemplateSpec().WithLabels(map[string]string{"app": "web"}).WithSpec(coreapply.PodSpec().
+						WithTerminationGracePeriodSeconds(30).WithContainers(coreapply.Container().WithName("c").WithImage("a&b<c>").WithArgs("x", "")))))
+				}},
+				{"spec.strategy+policy", func(a *appsapplyv1.StatefulSetApplyConfiguration) {
+					a.WithSpec(specOf(a).WithPodManagementPolicy(appsv1.ParallelPodManagement).WithUpdateStrategy(appsapplyv1.StatefulSetUpdateStrategy().
+						WithType(appsv1.RollingUpdateStatefulSetStrategyType).WithRollingUpdate(appsapplyv1.RollingUpdateStatefulSetStrategy().WithPartition(part))))
+				}},
+				{"spec.claims", func(a *appsapplyv1.StatefulSetApplyConfiguration) {
+					a.WithSpec(specOf(a).WithVolumeClaimTemplates(coreapply.PersistentVolumeClaim("data", "default").WithLabels(map[string]string{"k": "v"})))
+				}},
+				{"status", func(a *appsapplyv1.StatefulSetApplyConfiguration) {
+					a.WithStatus(appsapplyv1.StatefulSetStatus().WithReplicas(3).WithReadyReplicas(0).WithCurrentRevision("r1").WithUpdateRevision("r2").WithObservedGeneration(5).WithCollisionCount(0))
+				}},
+			}
+			checkApply := func(label string, idx []int) {
+				n++
+				a := appsapplyv1.StatefulSet("web", "default")
+				for _, i := range idx {
+					steps[i].f(a)
+				}
+				h := sha256.Sum256([]byte(label))
+				var k [16]byte
+				copy(k[:], h[:16])
+				rep.Count(k, len(idx) > 0, "")
+				got, err := helper.FromBuiltinStatefulSetApplyConfiguration(a)
+				if err != nil || got == nil {
+					rep.Violation("C19", "conversion-error", fmt.Sprintf("apply configuration %s: conversion failed: %v", label, err), nil)
+					return
+				}
+				if got.APIVersion == nil || *got.APIVersion != "apps.pingcap.com/v1" {
+					rep.Violation("C19", "api-version", fmt.Sprintf("apply configuration %s: converted configuration typed %v", label, got.APIVersion), nil)
+				}
+				// a JSON null or an empty object says what an absent key says
+				want := dropNulls(toTree(a))
+				if m, ok := want.(map[string]interface{}); ok {
+					m["apiVersion"] = "apps.pingcap.com/v1"
+				}
+				have := dropNulls(toTree(got))
+				if d := jsonIncluded(want, have, "$") + jsonIncluded(have, want, "$"); d != "" {
+					rep.Violation("C19", "apply-configuration-lossy", fmt.Sprintf("apply configuration %s: the converted configuration does not say the same: %s", label, d), nil)
+				}
+			}
+			checkApply("bare", nil)
+			all := []int{}
+			for i := range steps {
+				all = append(all, i)
+				checkApply(steps[i].name, []int{i})
+				for j := i + 1; j < len(steps); j++ {
+					checkApply(steps[i].name+" & "+steps[j].name, []int{i, j})
+					checkApply(steps[j].name+" & "+steps[i].name, []int{j, i})
+				}
+			}
+			checkApply("everything", all)
+		}
 		rep.AddStates(n, n)
 		rep.Validated = n
 		return rep.Finish()
 	})
+}
+
+// specOf returns the spec builder of an apply configuration, creating it when absent.
+func specOf(a *appsapplyv1.StatefulSetApplyConfiguration) *appsapplyv1.StatefulSetSpecApplyConfiguration {
+	if a.Spec == nil {
+		return appsapplyv1.StatefulSetSpec()
+	}
+	return a.Spec
+}
+
+// dropNulls removes null members and members that are empty objects from a JSON tree (recursively): neither says
+// anything about the object.
+func dropNulls(t interface{}) interface{} {
+	switch x := t.(type) {
+	case map[string]interface{}:
+		for k, v := range x {
+			if v == nil {
+				delete(x, k)
+				continue
+			}
+			x[k] = dropNulls(v)
+			if m, ok := x[k].(map[string]interface{}); ok && len(m) == 0 {
+				delete(x, k)
+			}
+		}
+	case []interface{}:
+		for i := range x {
+			x[i] = dropNulls(x[i])
+		}
+	}
+	return t
 }
